@@ -341,3 +341,69 @@ Example C04_trailers_flush_needed :
   rs_chunking new = true /\ hlookup (rw_trailers new) (bs "X-U1"%string) = Some [bs "t2"%string] /\
   rs_out old = rs_out new.
 Proof. exact trailers_flush_needed. Qed.
+
+(* ---- retries: a backend that died MID-BODY ---- *)
+
+(* bufferedBody + the rewind before every attempt: whatever the earlier attempts read of the body —
+   nothing, k bytes for ANY k (the backend reset the connection mid-body), everything — each attempt
+   reads the client's body from its first byte: the k bytes it asks for are the body's first k bytes,
+   an attempt that reads to EOF gets exactly the body.  Every body, every offset the previous
+   request left, every sequence of attempts. *)
+Theorem C04_retry_every_attempt_reads_from_start : forall data ks off,
+  attempt_reads {| bb_data := data; bb_off := off |} ks = map (prefix_asked data) ks.
+Proof. exact attempt_reads_from_start. Qed.
+Print Assumptions C04_retry_every_attempt_reads_from_start.
+
+(* the same on the pattern bodies of the harness (what ties the descriptors of large bodies) *)
+Theorem C04_retry_reads_pattern : forall salt len ks off,
+  attempt_reads {| bb_data := pat salt len; bb_off := off |} ks =
+  map (fun k => match k with Some n => pat salt (N.min (N.of_nat n) len) | None => pat salt len end) ks.
+Proof. exact retry_reads_pattern. Qed.
+Print Assumptions C04_retry_reads_pattern.
+
+(* A rewind that only acts on a DRAINED body (`if b == nil || b.Len() != 0 { return nil }`) is
+   indistinguishable as long as every attempt reads all of the body (or none: connection refused) — *)
+Theorem C04_rewind_only_when_drained_all_or_nothing : forall data n,
+  attempt_reads_with bb_rewind_if_drained {| bb_data := data; bb_off := 0 |} (repeat None n) = repeat data n.
+Proof. exact rewind_only_when_drained_all_or_nothing. Qed.
+Print Assumptions C04_rewind_only_when_drained_all_or_nothing.
+
+(* — and wrong as soon as one attempt stops mid-body: the next one gets the suffix only. *)
+Theorem C04_rewind_only_when_drained_refuted :
+  exists data ks, attempt_reads_with bb_rewind_if_drained {| bb_data := data; bb_off := 0 |} ks <> map (prefix_asked data) ks.
+Proof. exact rewind_only_when_drained_differs. Qed.
+Print Assumptions C04_rewind_only_when_drained_refuted.
+
+Example C04_retry_mid_body_nonvacuous :
+  attempt_reads {| bb_data := [1; 2; 3; 4]; bb_off := 0 |} [Some 0%nat; Some 1%nat; Some 2%nat; Some 9%nat; None] =
+    [[]; [1]; [1; 2]; [1; 2; 3; 4]; [1; 2; 3; 4]] /\
+  attempt_reads_with bb_rewind_if_drained {| bb_data := [1; 2; 3; 4]; bb_off := 0 |} [Some 1%nat; None] = [[1]; [2; 3; 4]].
+Proof. vm_compute. auto. Qed.
+
+(* ---- header_downstream runs AFTER the hop-by-hop removal ---- *)
+
+(* The hop-by-hop removal strips what the BACKEND sent; the configured header_downstream rules are
+   applied to the result.  So for a header that is hop-by-hop for this response (RFC table, or named
+   in any of its Connection lines) the client sees exactly what the rules make of an ABSENT header:
+   a rule that sets or adds it takes effect (`header_downstream Alt-Svc h3=:443`), the backend's own
+   value never does.  Every rule table, response header map and key. *)
+Theorem C04_downstream_rules_after_hop_removal : forall e live rules res h k,
+  is_hop_for h k = true ->
+  hlookup (mutate_headers e live rules res (resp_strip h)) k =
+  fold_left vop_apply (vops_for (subst_of e live) rules k ++ revops_for (subst_of e live) res k) None.
+Proof. exact down_rules_after_hop_removal. Qed.
+Print Assumptions C04_downstream_rules_after_hop_removal.
+
+(* the order matters: rules first, removal second would drop the configured header and, with a rule
+   deleting Connection, let the backend's Connection-listed header through *)
+Example C04_downstream_rules_after_hop_removal_nonvacuous :
+  let e := {| e_method := bs "GET"%string; e_host := []; e_remote := [] |} in
+  let h := [(bs "Alt-Svc"%string, [bs "old"%string]); (K_CONNECTION, [bs "X-Tok"%string]); (bs "X-Tok"%string, [bs "internal"%string])] in
+  let rules := [(bs "Alt-Svc"%string, [bs "h3=:443"%string])] in
+  let rules2 := [(bs "-Connection"%string, [[]])] in
+  is_hop_for h (bs "Alt-Svc"%string) = true /\
+  hlookup (mutate_headers e [] rules [] (resp_strip h)) (bs "Alt-Svc"%string) = Some [bs "h3=:443"%string] /\
+  hlookup (resp_strip (mutate_headers e [] rules [] h)) (bs "Alt-Svc"%string) = None /\
+  hlookup (mutate_headers e [] rules2 [] (resp_strip h)) (bs "X-Tok"%string) = None /\
+  hlookup (resp_strip (mutate_headers e [] rules2 [] h)) (bs "X-Tok"%string) = Some [bs "internal"%string].
+Proof. vm_compute. auto 6. Qed.
